@@ -598,3 +598,61 @@ def run(ctx):
     from . import C03 as c03
     r12 = ctx.rule("C01.R12", "a message whose send was reported as failed is never delivered: a lower-layer send failure other than EAGAIN is terminal")
     c03.check_terminal_failures(P, r12, tables)
+
+    # ------------------------------------------------------------------ R13
+    # both ends may hold a frame the kernel refuses (each peer's buffers are full).  The way out is that somebody reads:
+    # a receive whose flush of the own pending output was merely refused (EAGAIN) must go on and read.
+    r13 = ctx.rule("C01.R13", "a receive is not held up by this end's own refused output: after a flush that failed with EAGAIN the receive op still reads")
+    EAGAIN = 11
+    for t in tables:
+        if t.proto not in ("tcp", "tls"):
+            continue
+        f = t.slots["receive"]
+        flushers = {g for g in P.fns_in(f.file.split("/")[-1]) if g.file == f.file and g.static and any(True for _ in g.calls("xcm_tp_socket_send"))}
+        if not flushers:
+            raise Broken("C01.R13: the flush helper of %s was not found" % f.name)
+        r13.instance(f.qname)
+        held = []
+        nflush = [0]
+
+        class NotHeld(S.SeqRule):
+            max_depth = 3
+
+            def user0(s2, fn):
+                return (False, False)       # (own flush failed, a read was attempted)
+
+            def inline(s2, fn, nid, callee):
+                return callee.static and callee.file == f.file and callee is not f and callee not in flushers
+
+            def on_branch(s2, fn, st, blk, cond, label):
+                if label not in ("T", "F"):
+                    return None
+                l, op, r = C.cond_atom(fn, cond, label == "T")
+                ln = fn.sn(l)
+                if ln["k"] == "call" and any(d in flushers for d in P.callees(fn, ln["id"])[0]) and op == "<" and (isinstance(r, tuple) and r[1] == 0 or (not isinstance(r, tuple) and C.const_of(fn, r) == 0)):
+                    nflush[0] += 1
+                    return (True, st.user[1])
+                return None
+
+            def on_call(s2, fn, st, nid, callees, exts):
+                if (fn.nodes[nid].get("callee") or "") == "xcm_tp_socket_receive":
+                    return (st.user[0], True)
+                return None
+
+            def on_exit(s2, fn, st, ret_nid, ret_cls, top):
+                if not top:
+                    return
+                failed, read = st.user
+                e = st.efact
+                may_be_eagain = not (e and ((e[0] == "eq" and e[1] != EAGAIN) or (e[0] == "ne" and EAGAIN in e[1])))
+                if failed and not read and may_be_eagain and not held:
+                    held.append(ret_nid)
+        S.run(NotHeld(P), f)
+        if nflush[0] < 1:
+            raise Broken("C01.R13: %s does not test the result of its flush" % f.name)
+        if held:
+            r13.violation("%s:held-by-own-output" % f.name, "%s can return without reading when the flush of its own pending frame was only refused (EAGAIN): with both "
+                          "directions back-pressured neither end ever reads, no frame can be written, and the accepted messages of both sides are never delivered" % f.name,
+                          loc=f.loc(held[0]) if held[0] else f.file)
+        else:
+            r13.ok("%s: a flush refused with EAGAIN is followed by the read" % f.qname, "path exploration with errno facts")
